@@ -2,6 +2,7 @@ package props
 
 import (
 	"fmt"
+	"go/types"
 	"strings"
 
 	"golang.org/x/tools/go/ssa"
@@ -14,11 +15,64 @@ import (
 type ev struct {
 	name string
 	m    CallM
+	// nm, when set, matches nodes instead (it sees the frame: a response handed to a helper as a parameter is
+	// resolved to what the caller passed)
+	nm func(paths.Node) bool
+}
+
+// node is the event's node matcher.
+func (e ev) node() func(paths.Node) bool {
+	if e.nm != nil {
+		return e.nm
+	}
+	return nodeM(e.m)
+}
+
+// dynTypeAt: the dynamic type of an interface value of frame f, resolving parameters of inlined helpers to the
+// arguments of their call sites.
+func dynTypeAt(f *paths.Frame, v ssa.Value) string {
+	for i := 0; i < 8; i++ {
+		if d := dynType(v); d != "" {
+			return d
+		}
+		// resolution sees through the conversion to the interface: a concrete value names its own type
+		if _, isIface := v.Type().Underlying().(*types.Interface); !isIface {
+			return namedName(v.Type())
+		}
+		for {
+			ci, ok := v.(*ssa.ChangeInterface)
+			if !ok {
+				break
+			}
+			v = ci.X
+		}
+		up, nf := frameValueIn(f, v, nil)
+		if up == v && nf == f {
+			return ""
+		}
+		v, f = up, nf
+	}
+	return ""
+}
+
+// ackWriteAt: node n writes (through the ring writer) a message whose dynamic type is one of typs.
+func (c *Ctx) ackWriteAt(n paths.Node, typs ...string) bool {
+	call := paths.CallAt(n)
+	if call == nil || !mCallee(c.Roles().RingWrite)(call) || len(call.Common().Args) < 2 {
+		return false
+	}
+	d := dynTypeAt(n.F, call.Common().Args[1])
+	for _, t := range typs {
+		if d == t {
+			return true
+		}
+	}
+	return false
 }
 
 // queue operations: receiver path ends in the queue field name.
 func evQueue(op, q string) ev {
-	return ev{q + "." + op, func(call ssa.CallInstruction) bool {
+	return ev{name: q + "." + op, m: func(call ssa.CallInstruction) bool {
 		if !ir.IsMethod(call.Common(), pkgSessions, "Ackqueue", op) {
 			return false
 		}
@@ -29,32 +83,19 @@ func evQueue(op, q string) ev {
 
 func (c *Ctx) evAckWrite(typ string) ev {
 	r := c.Roles()
-	return ev{"write " + strings.ToUpper(strings.TrimSuffix(typ, "Message")), mAnd(mCallee(r.RingWrite), mArgDyn(1, typ))}
+	return ev{name: "write " + strings.ToUpper(strings.TrimSuffix(typ, "Message")), m: mAnd(mCallee(r.RingWrite), mArgDyn(1, typ)), nm: func(n paths.Node) bool { return c.ackWriteAt(n, typ) }}
 }
 
 func (c *Ctx) evAnyAckWrite() ev {
-	r := c.Roles()
-	return ev{"write of any acknowledgement", func(call ssa.CallInstruction) bool {
-		if !mCallee(r.RingWrite)(call) {
-			return false
-		}
-		a := call.Common().Args
-		if len(a) < 2 {
-			return false
-		}
-		switch dynType(a[1]) {
-		case "PubackMessage", "PubrecMessage", "PubrelMessage", "PubcompMessage", "SubackMessage", "UnsubackMessage", "PingrespMessage":
-			return true
-		}
-		return false
-	}}
+	acks := []string{"PubackMessage", "PubrecMessage", "PubrelMessage", "PubcompMessage", "SubackMessage", "UnsubackMessage", "PingrespMessage"}
+	return ev{name: "write of any acknowledgement", m: func(call ssa.CallInstruction) bool { return false }, nm: func(n paths.Node) bool { return c.ackWriteAt(n, acks...) }}
 }
 
-func (c *Ctx) evHandOver() ev { return ev{"hand-over", mCallee(c.Roles().HandOver)} }
+func (c *Ctx) evHandOver() ev { return ev{name: "hand-over", m: mCallee(c.Roles().HandOver)} }
 
 func (c *Ctx) evRelease(q string) ev {
 	r := c.Roles()
-	return ev{"release(" + q + ")", func(call ssa.CallInstruction) bool {
+	return ev{name: "release(" + q + ")", m: func(call ssa.CallInstruction) bool {
 		if !mCallee(r.Release)(call) {
 			return false
 		}
@@ -170,7 +211,7 @@ func (c *Ctx) checkCase(rule string, g *paths.Graph, sp caseSpec) {
 	}
 	for i, e := range sp.Must {
 		key := fmt.Sprintf("%s:must(%s)", label, e.name)
-		if p := mustPass(g, from, nodeM(e.m), asEx); p != nil {
+		if p := mustPass(g, from, e.node(), asEx); p != nil {
 			c.R.Bad(rule, key, pos, fmt.Sprintf("a path through the %s case reaches the end of the handler without %s", label, e.name), c.witness(g, p)...)
 		} else {
 			c.R.Ok(rule, key, pos, fmt.Sprintf("%s is on every path of the case (exempt: %s)", e.name, fmtAssume(sp.Exempt)))
@@ -178,7 +219,7 @@ func (c *Ctx) checkCase(rule string, g *paths.Graph, sp caseSpec) {
 		if i > 0 {
 			prev := sp.Must[i-1]
 			key := fmt.Sprintf("%s:order(%s<%s)", label, prev.name, e.name)
-			if p := reach(g, from, nodeM(prev.m), nodeM(e.m), as); p != nil {
+			if p := reach(g, from, prev.node(), e.node(), as); p != nil {
 				c.R.Bad(rule, key, pos, fmt.Sprintf("%s can execute before %s", e.name, prev.name), c.witness(g, p)...)
 			} else {
 				c.R.Ok(rule, key, pos, fmt.Sprintf("%s precedes %s on every path", prev.name, e.name))
@@ -187,7 +228,7 @@ func (c *Ctx) checkCase(rule string, g *paths.Graph, sp caseSpec) {
 	}
 	for _, e := range sp.MustNot {
 		key := fmt.Sprintf("%s:never(%s)", label, e.name)
-		if p := reach(g, from, nil, nodeM(e.m), as); p != nil {
+		if p := reach(g, from, nil, e.node(), as); p != nil {
 			c.R.Bad(rule, key, pos, fmt.Sprintf("%s is reachable in the %s case", e.name, label), c.witness(g, p)...)
 		} else {
 			c.R.Ok(rule, key, pos, fmt.Sprintf("%s is unreachable in the case", e.name))
@@ -199,14 +240,14 @@ func (c *Ctx) checkCase(rule string, g *paths.Graph, sp caseSpec) {
 		g.PruneEdge = pruneBy(as, old)
 		var first []paths.Node
 		g.FindPath(from, nil, func(n paths.Node) bool {
-			if nodeM(e.m)(n) {
+			if e.node()(n) {
 				first = append(first, n)
 			}
 			return false
 		})
 		var twice []paths.Node
 		for _, n := range first {
-			if p := g.FindPath(g.Succ(n), nil, nodeM(e.m)); p != nil {
+			if p := g.FindPath(g.Succ(n), nil, e.node()); p != nil {
 				twice = p
 				break
 			}
@@ -227,7 +268,7 @@ func (c *Ctx) checkCase(rule string, g *paths.Graph, sp caseSpec) {
 		g.PruneEdge = pruneBy(as, old)
 		var sites []paths.Node
 		g.FindPath(from, nil, func(n paths.Node) bool {
-			if nodeM(e.m)(n) {
+			if e.node()(n) {
 				sites = append(sites, n)
 			}
 			return false
@@ -255,10 +296,10 @@ func (c *Ctx) ackID(g *paths.Graph, from []paths.Node, as Assume, label, typ str
 	old := g.PruneEdge
 	g.PruneEdge = pruneBy(as, old)
 	defer func() { g.PruneEdge = old }()
-	w := mAnd(mCallee(r.RingWrite), mArgDyn(1, typ))
+	_ = r
 	var writes []paths.Node
 	g.FindPath(from, nil, func(n paths.Node) bool {
-		if nodeM(w)(n) {
+		if c.ackWriteAt(n, typ) {
 			writes = append(writes, n)
 		}
 		return false
@@ -274,10 +315,16 @@ func (c *Ctx) ackID(g *paths.Graph, from []paths.Node, as Assume, label, typ str
 		// SetPacketID calls on resp
 		isSet := func(n paths.Node) bool {
 			cl := paths.CallAt(n)
-			if cl == nil || !ir.IsMethod(cl.Common(), pkgMessage, "header", "SetPacketID") {
+			if cl == nil || !(ir.IsMethod(cl.Common(), pkgMessage, "header", "SetPacketID") || cl.Common().IsInvoke() && cl.Common().Method.Name() == "SetPacketID") {
 				return false
 			}
-			return resolveUp(n.F, cl.Common().Args[0]) == resolveUp(wn.F, resp)
+			recv := ssa.Value(nil)
+			if cl.Common().IsInvoke() {
+				recv = cl.Common().Value
+			} else {
+				recv = cl.Common().Args[0]
+			}
+			return resolveUp(n.F, recv) == resolveUp(wn.F, resp)
 		}
 		var sets []paths.Node
 		g.FindPath(from, nil, func(n paths.Node) bool {
@@ -298,14 +345,15 @@ func (c *Ctx) ackID(g *paths.Graph, from []paths.Node, as Assume, label, typ str
 		detail := ""
 		for _, sn := range sets {
 			cl := paths.CallAt(sn)
-			idv := cl.Common().Args[1]
-			src, isCall := ir.SeeThrough(idv).(*ssa.Call)
+			idv := cl.Common().Args[len(cl.Common().Args)-1]
+			idUp, idF := frameValueIn(sn.F, idv, nil)
+			src, isCall := ir.SeeThrough(idUp).(*ssa.Call)
 			if !isCall || !ir.IsMethod(src.Common(), pkgMessage, "header", "PacketID") {
 				ok = false
 				detail = "the identifier set at " + c.P.InstrPos(sn.Instr) + " is not the PacketID() of a message: " + idv.String()
 				continue
 			}
-			root := resolveUp(sn.F, src.Common().Args[0])
+			root := resolveUp(idF, src.Common().Args[0])
 			if root != bound {
 				ok = false
 				detail = "the identifier set at " + c.P.InstrPos(sn.Instr) + " is the PacketID() of " + root.Name() + ", not of the request bound by the case"
